@@ -83,3 +83,14 @@ Proof.
   apply in_map_iff in Hs as [g [<- Hg]]. exists g. split; [exact Hg|]. split; [reflexivity|].
   apply viewer_summary_check_model.
 Qed.
+
+(* requests handled at the same time: whatever the order in which the handler
+   gets to them, every request receives the answer it would receive alone *)
+From Coq Require Import Permutation.
+Theorem serve_sequence_permutation c reqs reqs' :
+  Permutation reqs reqs' -> Permutation (serve_sequence c reqs) (serve_sequence c reqs').
+Proof. intro H. unfold serve_sequence. apply Permutation_map. exact H. Qed.
+
+Theorem serve_sequence_each c reqs r :
+  In r reqs -> In (server_status (server_validate c (fst r) (snd r))) (serve_sequence c reqs).
+Proof. intro H. unfold serve_sequence. apply in_map_iff. exists r. auto. Qed.
